@@ -814,9 +814,10 @@ def run_case(rec, env, kind, idx, what=None, point=None, set_=None):
 QUICK = [("new", "0004", False), ("version", "0002", True), ("dedup", "0004", False), ("dedup", "0002", True),
          ("delete", "0002", False), ("upgrade", "0004", True), ("upgrade_fresh", "0002", False),
          ("upgrade_new", "0004", True), ("nested", "0002", True), ("version", "0004", False)]
-READ_ALL = [("version", "0004", False), ("version", "0002", True)]          # every read call is failed
-READ_SAMPLED = [("dedup", "0004", False), ("new", "0002", True), ("upgrade_new", "0004", True), ("upgrade", "0004", True),
-                ("delete", "0002", False)]                                      # a third of the read calls
+# every read call is failed: a plain version, the scenario with duplicates and orphans (rm_orphaned_files' existence / file tests),
+# the upgrade of a never committed object (find_files in stage_object_declaration)
+READ_ALL = [("version", "0004", False), ("dedup", "0004", False), ("upgrade_new", "0004", True)]
+READ_SAMPLED = [("version", "0002", True), ("new", "0002", True), ("upgrade", "0004", True), ("delete", "0002", False)]   # a third
 WRITE_GRANULARITY = [("version", "0004", False), ("upgrade", "0004", True), ("upgrade_new", "0004", True), ("new", "0004", False)]
 IMPORTS = ["Base.Bytes", "Model.FsOps", "Model.FsTree", "Model.Commit", "Model.KnownC04", "Corr.CheckCommit"]
 CLS_NO = {"old": 0, "new": 1, "invalid": 2, "other": 3}
